@@ -78,8 +78,9 @@ TRule ==
                 [] e.cat = "failed" -> failedFails
                 [] e.cat = "rest" -> restFails
                 [] OTHER -> {"C08_RuleInTwoCategories"}
-         \* what a recorded finding excuses: F4 / F5 only "reported but not written"; F6 (shared custom property) the rule's clauses
-         excused == IF e.known \in {"F4", "F5"} THEN {"C08_ReportedIsWritten"} ELSE IF e.known = "F6" THEN f ELSE {}
+         \* what a recorded finding excuses: F6 (a custom property this rule depends on is re-tuned for a LATER rule) has no
+         \* single ideal behaviour, so the rule's clauses are excused; nothing else is
+         excused == IF e.known = "F6" THEN f ELSE {}
      IN /\ fails' = fails \cup (f \ excused)
         /\ known' = known \cup (IF f \cap excused # {} THEN {e.known} ELSE {})
         /\ incon' = incon \cup (IF e.cat = "card" /\ e.cardAfter # <<>> /\ e.bg # <<>> /\ Meets(e.cardAfter, e.bg, tgt) = "CLOSE" THEN {"C08_CardMeetsTarget"} ELSE {})
